@@ -1,5 +1,49 @@
-(** C19 -- placeholder while the proofs are built *)
-From RL Require Import Model.Decode.
-Theorem C19_placeholder : m_decode strict_opts [] = Val (Err [IncompleteFlags], []).
-Proof. reflexivity. Qed.
-Print Assumptions C19_placeholder.
+(** C19 -- Purity.  What a Gallina model can carry is near-trivial and says
+    nothing about the Rust process: the Model is a function of its arguments, has
+    no state between calls and no output channel.  The statements below record
+    that over call histories; what DECIDES the property for the code is the
+    runtime monitoring of the check (fd 1/2 capture, repetition, shuffling,
+    threads).  Level claimed: other. *)
+From RL Require Import Base.Md5 Model.Decode Model.Encode Model.Hide.
+
+Inductive call :=
+| CDecode (o : opts) (b : list N)
+| CAvps (b : list N)
+| CEncode (v : message) (p : list N)
+| CHide (a : avp) (secret rv lp ap : list N)
+| CReveal (a : avp) (secret rv : list N).
+
+Inductive answer :=
+| ADecode (r : outcome (mres * list N))
+| AAvps (r : outcome (list (dres avp) * list N))
+| AEncode (r : outcome (list N))
+| AHide (r : outcome avp)
+| AReveal (r : outcome (dres avp)).
+
+Definition answer_of (c : call) : answer :=
+  match c with
+  | CDecode o b => ADecode (m_decode o b)
+  | CAvps b => AAvps (m_avps b)
+  | CEncode v p => AEncode (m_encode v p)
+  | CHide a s rv lp ap => AHide (m_hide md5 a s rv lp ap)
+  | CReveal a s rv => AReveal (m_reveal md5 a s rv)
+  end.
+
+(** the API as a state machine: the state is [unit], the output is always empty *)
+Definition step (s : unit) (c : call) : unit * (answer * list N) := (tt, (answer_of c, [])).
+
+Fixpoint run_history (s : unit) (h : list call) : list (answer * list N) :=
+  match h with
+  | [] => []
+  | c :: t => let '(s', r) := step s c in r :: run_history s' t
+  end.
+
+Theorem C19_no_output : forall h, Forall (fun r => snd r = []) (run_history tt h).
+Proof. induction h as [|c t IH]; cbn; constructor; [reflexivity|exact IH]. Qed.
+
+Theorem C19_history_independent : forall h1 h2 c,
+  nth (length h1) (run_history tt (h1 ++ c :: h2)) (answer_of c, []) = (answer_of c, []).
+Proof. induction h1 as [|x t IH]; intros h2 c; cbn; [reflexivity|apply IH]. Qed.
+
+Print Assumptions C19_no_output.
+Print Assumptions C19_history_independent.
